@@ -1,5 +1,7 @@
 //! C18 with the real kernel on a started runtime: coroutines make hooked `connect`s (blocking descriptors) to a
 //! listener whose `accept` is made by another coroutine through the hooked `accept`, or to a closed port.
+//! (descriptors are closed through the hooked `close`, as in a process that links the hook library: the selector's
+//! records of a descriptor number must go with it)
 //! body: `<loops> <pairs> <refused pairs>`
 //! out : `connected=<n>/<pairs> echoed=<n> refused=<n>/<refused pairs> flags=<descriptors still blocking>/<all> unfinished=<n>`
 use crate::rng::Rng;
@@ -53,9 +55,9 @@ pub fn exec(body: &str, emit: &mut dyn FnMut(&str)) {
                 let r = open_coroutine_core::syscall::recv(None, c, b.as_mut_ptr().cast(), 4, 0);
                 if r == 4 && b == [p as u8, 2, 3, 4] { ECHOED.fetch_add(1, Ordering::SeqCst); }
                 if blocking(c) && blocking(lfd) { FLAGS_OK.fetch_add(1, Ordering::SeqCst); }
-                unsafe { libc::close(c); }
+                _ = open_coroutine_core::syscall::close(None, c);
             }
-            unsafe { libc::close(lfd); }
+            _ = open_coroutine_core::syscall::close(None, lfd);
             DONE.fetch_add(1, Ordering::SeqCst);
             Some(0)
         }, None, None);
@@ -70,7 +72,7 @@ pub fn exec(body: &str, emit: &mut dyn FnMut(&str)) {
                 _ = open_coroutine_core::syscall::send(None, fd, b.as_ptr().cast(), 4, 0);
             }
             if blocking(fd) { FLAGS_OK.fetch_add(1, Ordering::SeqCst); }
-            unsafe { libc::close(fd); }
+            _ = open_coroutine_core::syscall::close(None, fd);
             DONE.fetch_add(1, Ordering::SeqCst);
             Some(0)
         }, None, None);
@@ -86,9 +88,9 @@ pub fn exec(body: &str, emit: &mut dyn FnMut(&str)) {
             let a = addr_of(port);
             let r = open_coroutine_core::syscall::connect(None, fd, (&a as *const libc::sockaddr_in).cast(), std::mem::size_of::<libc::sockaddr_in>() as u32);
             let e = unsafe { *libc::__errno_location() };
-            if r == -1 && e == libc::ECONNREFUSED { REFUSED.fetch_add(1, Ordering::SeqCst); }
+            if r == -1 && e == libc::ECONNREFUSED { REFUSED.fetch_add(1, Ordering::SeqCst); } else { eprintln!("rtconn: connect to a closed port answered r={r} errno={e}"); }
             if blocking(fd) { FLAGS_OK.fetch_add(1, Ordering::SeqCst); }
-            unsafe { libc::close(fd); }
+            _ = open_coroutine_core::syscall::close(None, fd);
             DONE.fetch_add(1, Ordering::SeqCst);
             Some(0)
         }, None, None);
